@@ -114,8 +114,20 @@ func Drive(p Prop, o DriverOpts) int {
 	if o.Only >= 0 {
 		runs = []*workerRun{{k: 0, from: o.Only, to: o.Only + 1, step: 1}}
 	} else {
-		for k := 0; k < W; k++ {
-			runs = append(runs, &workerRun{k: k, from: k, to: n, step: W})
+		// worker generations: a worker process handles at most maxCases cases (reflect.StructOf types are never freed)
+		maxCases := info.MaxCasesPerWorker
+		if maxCases <= 0 {
+			maxCases = 25000
+		}
+		R := W
+		for R*maxCases < n {
+			R += W
+		}
+		if info.Serial {
+			R = 1
+		}
+		for k := 0; k < R; k++ {
+			runs = append(runs, &workerRun{k: k, from: k, to: n, step: R})
 		}
 	}
 	timeout := 20 * time.Minute
@@ -123,13 +135,16 @@ func Drive(p Prop, o DriverOpts) int {
 		timeout = 120 * time.Minute
 	}
 	var wg sync.WaitGroup
+	sem := make(chan struct{}, W)
 	for _, r := range runs {
 		r.out = filepath.Join(workDir, fmt.Sprintf("w%d.json", r.k))
 		r.log = filepath.Join(workDir, fmt.Sprintf("w%d.log", r.k))
 		r.raceLog = filepath.Join(workDir, fmt.Sprintf("race%d", r.k))
 		wg.Add(1)
+		sem <- struct{}{}
 		go func(r *workerRun) {
 			defer wg.Done()
+			defer func() { <-sem }()
 			runWorkerProc(bin, id, o, r, info.Race, timeout)
 		}(r)
 	}
